@@ -523,6 +523,7 @@ func persistCheck(r *core.Run, prop string) {
 	persistRuns(r, strings.ToLower(prop), r.Pick(300, 5000), false)
 	if prop == "C09" {
 		concurrentPersist(r, r.Pick(40, 600))
+		busBindingSelfTest(r)
 		pipeline(r, "c09", true, r.Pick(250, 3000), r.Pick(40, 500), 991, nil, nil)
 	} else {
 		pipeline(r, "c13", true, r.Pick(300, 4000), r.Pick(20, 250), 1331, func(c busdrv.Cfg) bool { return c.PErrH || c.PTimeout }, nil)
